@@ -313,6 +313,9 @@ func genReq(t *rapid.T, c Case) Req {
 }
 
 func genCase(t *rapid.T) Case {
+	if drawCLI(t) { // a small share of the cases runs against the real CLI process (clicase_test.go)
+		return genCLICase(t)
+	}
 	var c Case
 	c.Server = rapid.SampledFrom([]string{"chunk", "chunk", "chunk", "index", "index"}).Draw(t, "server")
 	c.Via = rapid.SampledFrom([]string{"direct", "direct", "server"}).Draw(t, "via")
